@@ -119,8 +119,13 @@ func main() {
 		os, _ := execOp(&cl, fmt.Sprintf("qf %d", n))
 		run.Op(fmt.Sprintf("qf %d ;; %s", n, showOuts(os)), "ok")
 	}
+	for k := 0; k < 4; k++ { // every run starts with the scripted attacks
+		g.attackEpisode(&cl, k)
+	}
 	for run.NOps < a.N && !run.Enough() {
-		if rng.Chance(1, 4) {
+		if rng.Chance(1, 25) {
+			g.attackEpisode(&cl, rng.Intn(4))
+		} else if rng.Chance(1, 4) {
 			g.syncEpisode(&cl)
 		} else {
 			g.advEpisode(&cl)
